@@ -150,6 +150,84 @@ def jAck (j : AckSt) : List ORec → Option String
     | .error e => some e
     | .ok j' => jAck j' rs
 
+/-! ### clause 4b — an acknowledgement is final at every point of the message's life cycle
+
+Clause 4 takes the queue's own acknowledged counter as the witness that an acknowledgement "took
+effect".  The property text speaks about the consumer's act: once `acknowledge(k)` was *called* for a
+published message — while it is in flight, back in the pending queue after a visibility timeout, after
+a reject/requeue, or already dead-lettered — no delivery of `k` starts any more (`jAckFinal`).  And the
+message stays accounted for: the call on a message that is still the queue's responsibility (published,
+not acknowledged before, not dead-lettered — all three read off earlier records) moves the
+acknowledged counter by exactly one; on any other id it moves nothing (`jAckTakes`).  The same is asked of
+`reject(k)`: the rejected counter moves by one exactly when the queue still owes `k` (what the reject then does
+— requeue or dead-letter — is clause 3). -/
+
+structure FinSt where
+  pubd : List Nat := []     -- ids handed out by publish
+  acked : List Nat := []    -- published ids on which `acknowledge` has been called
+deriving Repr
+
+def FinSt.check (j : FinSt) (r : ORec) : Except String FinSt :=
+  match r.out with
+  | .pubOk k => .ok { j with pubd := k :: j.pubd }
+  | .disp _ k _ _ =>
+    if j.acked.contains k then .error "mq/ack/delivered-after-ack" else .ok j
+  | _ =>
+    match r.act with
+    | .ack k => if j.pubd.contains k then .ok { j with acked := k :: j.acked } else .ok j
+    | _ => .ok j
+
+def jAckFinal (j : FinSt) : List ORec → Option String
+  | [] => none
+  | r :: rs =>
+    match j.check r with
+    | .error e => some e
+    | .ok j' => jAckFinal j' rs
+
+structure TakeSt where
+  pubd : List Nat := []
+  acked : List Nat := []
+  dead : List Nat := []     -- ids whose reject / timeout grew the dead-letter queue
+  A : Nat := 0
+  D : Nat := 0
+  R : Nat := 0              -- rejected counter
+deriving Repr
+
+/-- is `k` still the queue's responsibility, as far as the records so far tell? -/
+def TakeSt.owes (j : TakeSt) (k : Nat) : Bool :=
+  j.pubd.contains k && !j.acked.contains k && !j.dead.contains k
+
+def TakeSt.check (j : TakeSt) (r : ORec) : Except String TakeSt :=
+  match r.out with
+  | .pubOk k => .ok { j with pubd := k :: j.pubd, A := r.ctr.A, D := r.ctr.D, R := r.ctr.rej }
+  | _ =>
+    match r.act with
+    | .ack k =>
+      if j.owes k then
+        (if r.ctr.A == j.A + 1 then
+           .ok { j with acked := k :: j.acked, A := r.ctr.A, D := r.ctr.D, R := r.ctr.rej }
+         else .error "mq/ack/ack-of-accounted-message-ignored")
+      else if r.ctr.A == j.A then .ok { j with D := r.ctr.D, R := r.ctr.rej }
+      else .error "mq/ack/counted-for-unaccounted-message"
+    | .rej k _ =>
+      -- the same for a reject: on a message the queue owes it is counted, on any other id it is not
+      if r.ctr.rej == (if j.owes k then j.R + 1 else j.R) then
+        .ok { j with dead := if r.ctr.D == j.D + 1 then k :: j.dead else j.dead,
+                     A := r.ctr.A, D := r.ctr.D, R := r.ctr.rej }
+      else if j.owes k then .error "mq/reject/reject-of-accounted-message-ignored"
+      else .error "mq/reject/counted-for-unaccounted-message"
+    | .tmo k =>
+      .ok { j with dead := if r.ctr.D == j.D + 1 then k :: j.dead else j.dead,
+                   A := r.ctr.A, D := r.ctr.D, R := r.ctr.rej }
+    | _ => .ok { j with A := r.ctr.A, D := r.ctr.D, R := r.ctr.rej }
+
+def jAckTakes (j : TakeSt) : List ORec → Option String
+  | [] => none
+  | r :: rs =>
+    match j.check r with
+    | .error e => some e
+    | .ok j' => jAckTakes j' rs
+
 /-! ### clause 5 — every delivery reaches a subscribed consumer at the delivery instant
 
 A delivery that starts at `t0` (poll or redelivery event) picks a consumer subscribed at that
@@ -200,7 +278,7 @@ def jReach (lat : Nat) (j : ReachSt) : List ORec → Option String
 
 /-- all clauses; the first violated one is reported -/
 def judgeMQ (cfg : Cfg) (tr : List ORec) : Option String :=
-  (jAccounted tr).or <| (jReach cfg.lat {} tr).or <| (jAck {} tr).or <|
-    (jLimit cfg.maxRe {} tr).or (jOrder {} tr)
+  (jAccounted tr).or <| (jReach cfg.lat {} tr).or <| (jAckFinal {} tr).or <| (jAck {} tr).or <|
+    (jAckTakes {} tr).or <| (jLimit cfg.maxRe {} tr).or (jOrder {} tr)
 
 end HappyModel.C19
